@@ -117,7 +117,7 @@ Qed.
 
 (* ---------------------------------------------------------------- imperfect candidates *)
 
-(* invariant of the admit loop *)
+(* invariant of the candidate loop *)
 Definition adm_inv (outer : Z) (st : list Z * list Z) : Prop :=
   (forall t, In t (fst st) -> exists c, In c (snd st) /\ t = cdiv outer c) /\
   (forall c, In c (snd st) -> In (cdiv outer c) (fst st) /\ 1 <= c <= outer).
